@@ -107,7 +107,7 @@ func cmdCheck(args []string) {
 	for _, b := range baseline {
 		inBase[b] = true
 	}
-	timeout, agree := 10, false
+	timeout, agree := 20, false
 	if *tier == "thorough" {
 		timeout, agree = 60, true
 	}
@@ -145,6 +145,7 @@ func cmdCheck(args []string) {
 	type fail struct {
 		name, status, output, kind, desc, pos string
 		query                                 string
+		obl                                   *vc.Obligation
 	}
 	var fails []fail
 	var records []oblRecord
@@ -160,7 +161,7 @@ func cmdCheck(args []string) {
 		if r.Obl.ExpectSat {
 			nCover++
 			if !r.OK {
-				fails = append(fails, fail{r.Obl.Name, "vacuous(" + r.Status + ")", r.Output, r.Obl.Kind, r.Obl.Desc, r.Obl.Pos, r.Obl.Query()})
+				fails = append(fails, fail{r.Obl.Name, "vacuous(" + r.Status + ")", r.Output, r.Obl.Kind, r.Obl.Desc, r.Obl.Pos, r.Obl.Query(), r.Obl})
 			}
 			continue
 		}
@@ -179,7 +180,7 @@ func cmdCheck(args []string) {
 			nDis++
 			discharged = append(discharged, r.Obl.Name)
 		} else {
-			fails = append(fails, fail{r.Obl.Name, r.Status, r.Output, r.Obl.Kind, r.Obl.Desc, r.Obl.Pos, r.Obl.Query()})
+			fails = append(fails, fail{r.Obl.Name, r.Status, r.Output, r.Obl.Kind, r.Obl.Desc, r.Obl.Pos, r.Obl.Query(), r.Obl})
 		}
 	}
 	for _, s := range sres {
@@ -200,7 +201,7 @@ func cmdCheck(args []string) {
 			nDis++
 			discharged = append(discharged, s.Name)
 		} else {
-			fails = append(fails, fail{s.Name, s.Status, s.Detail, "structural", s.Desc, "", ""})
+			fails = append(fails, fail{s.Name, s.Status, s.Detail, "structural", s.Desc, "", "", nil})
 		}
 	}
 	if *writeBaseline {
@@ -222,7 +223,7 @@ func cmdCheck(args []string) {
 		}
 		if !inBase[f.name] && !*writeBaseline && len(baseline) > 0 {
 			// an obligation that did not exist on the pinned tree: alarm only with a confirmed replay
-			confirmed, path := tryReplay(eng, *prop, f.name, f.query, replayDir)
+			confirmed, path := tryReplay(f.obl, *prop, replayDir)
 			if confirmed {
 				fmt.Printf("VIOLATION property=%s replay=%s\n", *prop, path)
 				violations++
@@ -234,7 +235,7 @@ func cmdCheck(args []string) {
 		}
 		os.MkdirAll(replayDir, 0o755)
 		path := filepath.Join(replayDir, sanitizeName(f.name)+".txt")
-		confirmed, rpath := tryReplay(eng, *prop, f.name, f.query, replayDir)
+		confirmed, rpath := tryReplay(f.obl, *prop, replayDir)
 		var body strings.Builder
 		fmt.Fprintf(&body, "property: %s\nfailed obligation: %s\nkind: %s\nclause: %s\nwhere: %s\nsolver status: %s\n", *prop, f.name, f.kind, f.desc, f.pos, f.status)
 		fmt.Fprintf(&body, "meaning: this obligation is discharged on the pinned tree (baseline) and is no longer discharged on the current tree.\n")
